@@ -14,7 +14,7 @@ Section Data.
     (dropped s = false -> s.(delivered) ++ s.(pending) ++ job_inflight s f = f <$> s.(taken)) /\
     (exists l, s.(delivered) ++ l = f <$> s.(taken)).
 
-  Lemma inv_data_init inputs ext : inv_data inputs (init F inputs ext).
+  Lemma inv_data_init inputs sl ext : inv_data inputs (init_slow F inputs sl ext).
   Proof. unfold inv_data; cbn. repeat split; try done; try lia; try (by intros [? [=]]). by exists []. Qed.
 
   Lemma step_inv_data inputs s a s' : inv_data inputs s -> step F f s a = Some s' -> inv_data inputs s'.
@@ -38,17 +38,17 @@ Section Data.
     all: eexists; rewrite <- (assoc_L (++)); cbn; rewrite <- H5; reflexivity.
   Qed.
 
-  Lemma reach_inv_data inputs ext tr s : run F f (init F inputs ext) tr = Some s -> inv_data inputs s.
+  Lemma reach_inv_data inputs sl ext tr s : run F f (init_slow F inputs sl ext) tr = Some s -> inv_data inputs s.
   Proof. apply run_invariant_all; [apply inv_data_init|apply step_inv_data]. Qed.
 
   (* C12.1: outputs are the images of the inputs taken so far, in order, without loss or duplication *)
-  Theorem pipe_order inputs ext tr s :
-    run F f (init F inputs ext) tr = Some s ->
+  Theorem pipe_order inputs sl ext tr s :
+    run F f (init_slow F inputs sl ext) tr = Some s ->
     inputs = s.(taken) ++ s.(inp_rest) /\
     (dropped s = false -> s.(delivered) ++ s.(pending) ++ job_inflight s f = f <$> s.(taken)) /\
     (exists l, s.(delivered) ++ l = f <$> s.(taken)).
   Proof.
-    intros Hr. destruct (reach_inv_data _ _ _ _ Hr) as (H1 & _ & _ & _ & H5 & H6).
+    intros Hr. destruct (reach_inv_data _ _ _ _ _ Hr) as (H1 & _ & _ & _ & H5 & H6).
     done.
   Qed.
 End Data.
